@@ -170,6 +170,14 @@ theorem unauth_request_inert (P : Prims) (ufrag pwd : Bytes) (s : St) (sock : So
       · simp [step, Inert]
     · simp [step, Inert]
 
+/-- non-vacuity of `unauth_request_inert`: e.g. no datagram shorter than 24 bytes carries credentials -/
+example (P : Prims) (ufrag pwd : Bytes) : ¬ Credentials P ufrag pwd [0, 1, 0, 0] := by
+  intro ⟨_, off, mac, ⟨hb, t0, t1, l0, l1, body, hd, _⟩, _⟩
+  have h20 : 20 ≤ off := hb.ge20
+  have := congrArg List.length hd
+  simp only [List.length_drop, List.length_cons, List.length_nil] at this
+  omega
+
 /-- **genuine_check_accepted**: the repair does not lock out conforming peers — every request whose first
 USERNAME is `<ufrag>:<anything>` and whose MESSAGE-INTEGRITY is computed with the local password, whatever
 other attributes it carries, with or without FINGERPRINT, passes the credential check. -/
